@@ -112,7 +112,14 @@ def instances(tier):
         if not any(i.name == nm for i in out):
             out.append(inst(nm.strip(), fn, timeout=timeout, sp=sp, **kw))
 
+    # knot vectors moved by a symbolic offset of any magnitude
+    add('split', h_split, spec('curve', (2,), ((1, 1),), rational=False, dim=2, shifted=True), d=0)
+    add('split', h_split, spec('curve', (3,), ((2,),), rational=True, dim=2, shifted=True), d=0)
+    add('split', h_split, spec('surface', (1, 2), ((1,), (1,)), rational=False, shifted=True), timeout=1800, d=1)
     add('split', h_split, spec('curve', (2,), ((1,),), rational=False, dim=3), d=0, after_sibling=True)
+    add('split', h_split, spec('curve', (2,), ((1, 1),), rational=False, dim=2), d=0, after_sibling=True)
+    add('split', h_split, spec('curve', (3,), ((1, 1, 1),), rational=False, dim=2), d=0, after_sibling=True)
+    add('split', h_split, spec('surface', (2, 1), ((1, 1), ()), rational=False), timeout=1800, d=0, after_sibling=True)
     add('split', h_split, spec('curve', (3,), ((2,),), rational=True, dim=2), d=0, after_sibling=True)
     add('split', h_split, spec('surface', (1, 2), ((1,), ()), rational=False), timeout=1800, d=1, after_sibling=True)
     add('split', h_split, spec('surface', (2, 1), ((), (1,)), rational=True), timeout=1800, d=0, after_sibling=True)
